@@ -17,11 +17,13 @@ BASELINE = {
     'ntt': {('arith', 2), ('arith', 4), ('arith', 8), ('arith', 16), ('arith', 32), ('arith', 16711935)},
     'poseidon': {('arith', 2), ('arith', 4), ('arith', 8), ('array', 8), ('array', 12), ('array', 24), ('cmp', 4), ('cmp', 8), ('phi', 8)},
     'par': {('arith', 8)},
+    'batchinv': {('arith', 24), ('array', 3)},
 }
 FAMILY_PAT = {
     'ntt': r'^(NTT_Goldilocks::|BR\()',
     'poseidon': r'^PoseidonGoldilocks::(merkletree|linear_hash)',
     'par': r'^Goldilocks::(parcpy|parSetZero)\(',
+    'batchinv': r'^Goldilocks3::batchInverse',
 }
 OPS = ('icmp', 'select', 'add', 'sub', 'mul', 'udiv', 'urem', 'sdiv', 'srem', 'and', 'shl', 'lshr', 'phi')
 LIMIT = 1 << 24
@@ -168,6 +170,13 @@ def ntt_extra(ths, tier='quick'):
                 for nphase in (2, 3):
                     for nblock, buf, dst in ((1, False, 'src'), (1, False, 'other'), (2, True, 'src')):
                         out.append((8, 8, ncols, nphase, nblock, buf, dst, 1))
+        elif c <= 6000:
+            # a column count / slice width: wide matrices with a tiny transform are cheap (cost ~ n^2 log n * ncols)
+            for ncols in (c + 1, 2 * c + 1) if c <= 2000 else (c + 1,):
+                for n in (2,):
+                    for nphase in (2, 3):
+                        for nblock, buf, dst in ((1, False, 'src'), (1, False, 'other'), (2, True, 'src')):
+                            out.append((n, n, ncols, nphase, nblock, buf, dst, 1))
     return out, sorted(set(skipped))
 
 
@@ -204,6 +213,12 @@ def ext_extra(ths, tier='quick'):
             for ncols in (c - 1, c, c + 1):
                 for nphase in (2, 3):
                     out.append((4, 4, 8, ncols, nphase, 1, False, 1, True))
+        elif c <= 6000:
+            for ncols in (c + 1, 2 * c + 1) if c <= 2000 else (c + 1,):
+                for N, Next, phases in ((2, 4, (2, 3)), (1, 2, (2,))):
+                    for nphase in phases:
+                        for nblock, buf, inplace in ((1, False, True), (1, True, False), (2, False, True)):
+                            out.append((max(N, 2), N, Next, ncols, nphase, nblock, buf, 1, inplace))
     return out, sorted(set(skipped))
 
 
@@ -236,12 +251,32 @@ def merkle_extra(ths, tier='quick'):
                     out.append((2, cols * batch + 1, 1, batch))
             out.append((2, cols, 1, None))
             out.append((1, cols, 3, 4))
+        # tall trees are cheap (the permutation is opaque): a constant may bound a row count or the width of a level
         r = pow2_at_least(c)
-        for rows in (r, 2 * r):
-            if rows <= (256 if tier == 'quick' else 1024):
+        for rows in (r // 2, r, 2 * r, 4 * r):
+            if 1 <= rows <= (8192 if tier == 'quick' else 32768):
                 out.append((rows, 1, 1, None))
+                out.append((rows, 3, 1, None))
                 out.append((rows, 5, 1, 2))
     return out, sorted(set(skipped))
+
+
+def batch_sizes(ths, tier='quick'):
+    """array lengths on both sides of a block length / chunk size (and of its multiples)"""
+    maxlen = 12000 if tier == 'quick' else 40000
+    out = set()
+    skipped = []
+    for c in ths:
+        if c < 2:
+            continue
+        got = False
+        for x in (c - 1, c, c + 1, c + 5, 2 * c - 1, 2 * c, 2 * c + 1):
+            if 1 <= x <= maxlen:
+                out.add(x)
+                got = True
+        if not got:
+            skipped.append(c)
+    return sorted(out), sorted(set(skipped))
 
 
 def par_sizes(ths):
